@@ -85,6 +85,7 @@ class CacheModel:
 
         self.alphabet = [('compile', k) for k in KEYS] + [('purge',)] + [('pass', k) for k in ('k0', 'k3', 'k6')] + \
                         [('pass-extra', k, x) for k in ('k0',) for x in ('flags', 'namespaces', 'custom')] + \
+                        [('pass-same', 'k1', 'flags'), ('pass-same', 'k3', 'namespaces'), ('pass-same', 'k4', 'namespaces'), ('pass-same', 'k5', 'custom')] + \
                         [('fill', self.bound - 2), ('fill', self.bound)]
         self.merge = True
 
@@ -93,7 +94,7 @@ class CacheModel:
         lru = collections.OrderedDict()
         fillc = 0
         for a in hist:
-            if a[0] == 'compile' or a[0] == 'pass' or a[0] == 'pass-extra':
+            if a[0] in ('compile', 'pass', 'pass-extra', 'pass-same'):
                 k = canon_args(a[1])
                 if a[0] != 'compile':
                     # the compiled object is obtained by compiling first
@@ -139,6 +140,17 @@ class CacheModel:
                     obs.append(('ValueError',))
                 except Exception as e:
                     obs.append(('other', type(e).__name__))
+            elif a[0] == 'pass-same':
+                c = do_compile(sv, a[1])
+                p, ns, fl, cu = args_of(sv, a[1])
+                kw = {'flags': {'flags': fl}, 'namespaces': {'namespaces': dict(reversed(list(ns.items()))) if ns else ns}, 'custom': {'custom': cu}}[a[2]]
+                try:
+                    r = sv.compile(c, **kw)
+                    obs.append(('returned', r))
+                except ValueError:
+                    obs.append(('ValueError',))
+                except Exception as e:
+                    obs.append(('other', type(e).__name__))
             elif a[0] == 'fill':
                 for _ in range(a[1]):
                     fillc += 1
@@ -173,6 +185,8 @@ class CacheModel:
                         return {'kind': 'equal-but-different-hash', 'keys': b[1] + '/' + a[1]}, f'{b[1]} == {a[1]} but hashes differ'
         if a[0] == 'pass' and o[0] is not o[1]:
             return {'kind': 'pass-through-not-identical'}, f'compile(compiled {a[1]}) returned a different object'
+        if a[0] == 'pass-same' and o != ('ValueError',):
+            return {'kind': 'extra-argument-accepted', 'arg': a[2] + ' (equal to the compiled one)'}, f'compile(compiled {a[1]}, {a[2]}=<the value it was compiled with>) -> {o[0]}'
         if a[0] == 'pass-extra' and o != ('ValueError',):
             return {'kind': 'extra-argument-accepted', 'arg': a[2]}, f'compile(compiled, {a[2]}=...) -> {o[0]}'
         return None
